@@ -145,7 +145,8 @@ INFER_PROFILES = [
             ("Tsukamoto", "tsukamoto"), ("InverseTsukamoto", "inverseTsukamoto"), ("Hybrid", "hybrid"))],
     },
     {
-        # a term is any type `T`; mu: what `term.membership(x)` returns or raises; an `Activated` is the pair (term, degree)
+        # a term is any type `T`; mu: what `term.membership(x)` returns or raises; an `Activated` is the pair (term, degree as
+        # the setter of `Activated.degree` stores it: `nan_to_num(value, nan=0, neginf=0, posinf=1)`)
         "name": "Variable_highest_membership", "module": "fuzzylite.variable", "object": "Variable.highest_membership",
         "file": "CodeInfer", "type_params": ["T"],
         "params": [("mu", "T → Py.M (X Rat)"), ("terms", "List T")],
@@ -156,7 +157,7 @@ INFER_PROFILES = [
             ("scalar(_0)", "{0}", "X Rat", True, ["X Rat"]),
             ("_0.membership(x)", "(mu {0})", "X Rat", False, ["T"]),
             ("highest.degree", "(Py.deref σ.highest >>= fun h => .ok h.2)", "X Rat", False),
-            ("Activated(_0, _1)", "({0}, {1})", ACTIVATED, True, ["T", "X Rat"]),
+            ("Activated(_0, _1)", "({0}, X.nanToNum01 {1})", ACTIVATED, True, ["T", "X Rat"]),   # the constructor stores the degree through the setter (nan_to_num)
         ],
     },
     {
@@ -170,7 +171,7 @@ INFER_PROFILES = [
             ("self.terms", "terms", "List T", True),
             ("array('', dtype=np.str_)", '""', "String", True),
             ("_0.membership(x)", "(mu {0})", "X Rat", False, ["T"]),
-            ("Activated(_0, _1)", "({0}, {1})", ACTIVATED, True, ["T", "X Rat"]),
+            ("Activated(_0, _1)", "({0}, X.nanToNum01 {1})", ACTIVATED, True, ["T", "X Rat"]),   # the constructor stores the degree through the setter (nan_to_num)
             ("np.char.add(_0, _1)", "({0} ++ {1})", "String", True, ["String", "String"]),
             ("_0.fuzzy_value(padding=_1)", "(fv {0} {1})", "String", True, [ACTIVATED, "Bool"]),
         ],
